@@ -51,6 +51,9 @@ def run(an, cfg):
 
 
 def check(rep, an, tier):
+    # the bounds every clause below speaks of are the REGISTERED ones: registration keeps / replaces exactly what it is given
+    from .C14 import register_bounds_rule
+    register_bounds_rule(rep, an)
     entry = "lsq_linear_minimize"
     cfgs = list(lsq_configs(tier, AXES))
     if tier == "quick":     # the interaction batch × L1 request × bounds is a pairwise boundary of its own
@@ -192,6 +195,22 @@ def estimator_chain(rep, an):
             fields.pop(k, None)
         kw = dict(sources=arr("sources", S("SRC", "D"), U_SIGNAL), domain=none(), lb=none(), ub=none(), labels=none(), Epsilon=none())
         res = an.run(f"{EST}.register_system", kws=kw, self_fields=fields, config=f"uncertainty={unc}")
+        # every capture integral behind the variance model runs over the (common) domain — never over the default unit step
+        for ev in res.events("call"):
+            fn = ev.d["callee"]
+            if fn.name != "calculate_capture":
+                continue
+            bound = dict(ev.d["kws"])
+            for i, a in enumerate(ev.d["args"]):
+                if i < len(fn.params):
+                    bound.setdefault(fn.params[i], a)
+            dv = bound.get("domain")
+            okd = dv is not None and not (dv.known and not isinstance(dv.const, (int, float)))
+            okd = okd and bool({"self.domain", "domain"} & {o.split("|")[0] for o in dv.flat().deps_all()})
+            rep.check("R-FLOW", "the capture integrals of the variance model run over the domain", okd, where=ev.loc, construct=ev.text()[:80],
+                      entry="ReceptorEstimator.register_system", config=res.config,
+                      msg="calculate_capture is called without the domain: the filter samples are integrated with the default unit step, so the "
+                          "variance model is off by the squared step for a uniform grid and wrong in shape for a non-uniform one")
         st = [e for e in res.events("self_store") if e.d["attr"] == "Epsilon"]
         if not st:
             rep.violated("R-EFFECT", "register_system stores Epsilon", where=res.fn.loc(), construct="self.Epsilon = …",
